@@ -285,12 +285,12 @@ theorem wordsL_append (x y : List JV) : wordsL (x ++ y) = wordsL x ++ wordsL y :
   | nil => rfl
   | cons v vs ih => simp [wordsL, ih]
 
-theorem paysL_append (x y : List JV) : paysL (x ++ y) = paysL x ++ paysL y := by
+theorem paysL_appendA (x y : List JV) : paysL (x ++ y) = paysL x ++ paysL y := by
   induction x with
   | nil => rfl
   | cons v vs ih => simp [paysL, ih]
 
-theorem goodL_append (x y : List JV) (hx : goodL x = true) (hy : goodL y = true) : goodL (x ++ y) = true := by
+theorem goodL_append_of (x y : List JV) (hx : goodL x = true) (hy : goodL y = true) : goodL (x ++ y) = true := by
   induction x with
   | nil => simpa using hy
   | cons v vs ih =>
@@ -335,12 +335,12 @@ theorem node_step (p : Bytes → Bool) (buf : Bytes) (off : Nat) (w : JV) (hs : 
   | obj kvs =>
     simp only [goodTop, Bool.and_eq_true, decide_eq_true_eq] at hg
     have hgl : goodL (kvs.map (fun kv => str kv.1) ++ kvs.map (·.2)) = true :=
-      goodL_append _ _ (goodL_strs kvs hg.2) (goodK_goodL kvs hg.2)
+      goodL_append_of _ _ (goodL_strs kvs hg.2) (goodK_goodL kvs hg.2)
     have := node_generic p (kvs.map (fun kv => str kv.1) ++ kvs.map (·.2)) hgl
       (C.OBJECT_CONTAINER_TAG + kvs.length) (obj_header_lt _ hg.1.1)
       (by simp [hdrSize, hdrType_obj _ hg.1.1, hdrLen_obj _ hg.1.1, ne_obj_sca, ne_obj_arr]; omega)
       a b a.length rfl fuel queue
-    simp only [wordsL_append, paysL_append, wordsL_strs, paysL_strs, wordsL_vals, paysL_vals,
+    simp only [wordsL_append, paysL_appendA, wordsL_strs, paysL_strs, wordsL_vals, paysL_vals,
       List.append_assoc] at this
     simpa [entry, entriesOf] using this
   | _ => simp [isScalar] at hs
@@ -389,7 +389,7 @@ theorem traverseCheckString_refines (v : JV) (hg : goodTop v = true) (p : Bytes 
     have := node_generic p [v] hgl C.SCALAR_CONTAINER_TAG sca_lt (by simp [hdrSize, hdrType_sca]) [] [] 0 rfl
       ((encodeSpec v).length + 1) []
     have e : encodeSpec v = [] ++ (u32be C.SCALAR_CONTAINER_TAG ++ (wordsL [v] ++ (paysL [v] ++ []))) := by
-      rw [encodeSpec_scalar v hs]; simp [wordsL, paysL]
+      rw [encodeSpec_scalarA v hs]; simp [wordsL, paysL]
     rw [← e] at this
     rw [show (encodeSpec v).length + 2 = ((encodeSpec v).length + 1) + 1 by omega, this.1]
     simp only [directL, List.any_cons, List.any_nil, Bool.or_false, kidOffs, hs, if_true, List.append_nil,
